@@ -45,7 +45,7 @@ wks_map = {
 }
 
 service_name_format = \
-    re.compile(b"^urn:nfc:[x]?sn:[a-zA-Z][a-zA-Z0-9-_:\\.]*$")
+    re.compile(b"^urn:nfc:[x]?sn:[a-zA-Z][a-zA-Z0-9-_:\\.]*\\Z")
 
 
 class ServiceAccessPoint(object):
